@@ -62,6 +62,7 @@ class UInterp(mirsym.Interp):
     def __init__(s, fns, consts, maxdepth=12):
         super().__init__(fns, consts, maxdepth)
         s.paths = []
+        s.iter_len = 0     # honest user iterator: yields exactly this many items (lying iterators are Kani's subject)
 
     # ------------------------------------------------------------------ helpers
     def alloc_of(s, ptr):
@@ -137,6 +138,48 @@ class UInterp(mirsym.Interp):
             return cont(st, Opaque('unit'))
         if n.endswith('process::abort') or n == 'abort':
             raise PathEnd('abort')
+        if n.endswith('allocate_for_header_and_slice'):
+            # summary: a fresh block with count 1 whose header and `len` slice slots are all unwritten
+            ln = args[0]
+            ln = simplify(ln).as_long() if not isinstance(ln, int) else ln
+            st.nheap += 1
+            root = ('H', f'built{st.nheap}')
+            st.mem[root] = Struct('ArcInner', [Struct('Atomic', [BitVecVal(1, 64)]),
+                                               Struct('HeaderSlice', [UNINIT, Struct('slice', [UNINIT] * ln)])])
+            st.cnt[root[1]] = BitVecVal(1, 64)
+            st.true_len[root[1]] = BitVecVal(ln, 64)
+            st.trace.append(f'alloc {root[1]} ({ln} unwritten slots)')
+            return cont(st, mptr(root, (), BitVecVal(ln, 64)))
+        if n.endswith('<impl [T]>::as_mut_ptr') or n.endswith('slice::as_mut_ptr') or re.search(r'slice::<impl \[T\]>::as_mut_ptr$', n):
+            return cont(st, Ptr(args[0].root, args[0].path + (0,)))
+        if re.search(r'mut_ptr::(offset|add)$', n):
+            k = args[1]
+            k = simplify(k).as_long() if not isinstance(k, int) else k
+            p0 = args[0]
+            return cont(st, Ptr(p0.root, p0.path[:-1] + (p0.path[-1] + k,)))
+        if re.search(r'Range as IntoIterator>::into_iter$', n):
+            return cont(st, args[0])
+        if re.search(r'Range as Iterator>::next$', n):
+            r = st.load(args[0])
+            a, b = simplify(r.fields[0]).as_long(), simplify(r.fields[1]).as_long()
+            if a < b:
+                st.store(Ptr(args[0].root, args[0].path + (0,)), BitVecVal(a + 1, 64))
+                return cont(st, Enum('Option', 'Some', [BitVecVal(a, 64)]))
+            return cont(st, Enum('Option', 'None', []))
+        if n.endswith('Option::expect') or n.endswith('Option::unwrap'):
+            o = args[0]
+            if o.variant == 'Some':
+                return cont(st, o.fields[0])
+            st.trace.append('library panics (expect on None)')
+            if unw is None:
+                raise PathEnd('unwind')
+            return unw(st)
+        if n.endswith('Option::is_none'):
+            o = st.load(args[0])
+            return cont(st, o.variant == 'None')
+        if n.endswith('Option::is_some'):
+            o = st.load(args[0])
+            return cont(st, o.variant == 'Some')
         if n == 'thin_to_thick':
             # fat pointer re-synthesised from the length RECORDED in the allocation's header
             t = st.load(args[0])
@@ -153,7 +196,7 @@ class UInterp(mirsym.Interp):
             return cont(st, mptr(args[0].root, args[0].path, None))
         if n.endswith('Arguments::from_str') or n.endswith('Arguments::new_const'):
             return cont(st, Opaque('fmt-args'))
-        if 'panicking::' in n or n in ('panic', 'panic_fmt', 'panic_display', 'panic_explicit'):
+        if 'panicking::' in n or n in ('panic', 'panic_fmt', 'panic_display', 'panic_explicit') or n.endswith('begin_panic'):
             st.trace.append('library panics (' + n.split('::')[-1] + ')')
             if unw is None:
                 raise PathEnd('unwind')
@@ -200,6 +243,25 @@ class UInterp(mirsym.Interp):
                     s.paths.append((st2, ('end', e.why)))
             st.trace.append('T::clone returns')
             return cont(st, Opaque('payload-clone'))
+        if (trait, meth) == ('ExactSizeIterator', 'len'):
+            st.trace.append(f'iterator reports len {s.iter_len}')
+            return cont(st, BitVecVal(s.iter_len, 64))
+        if (trait, meth) == ('Iterator', 'next'):
+            k = st.mem.get(('ITER', 'yielded'), 0)
+            # user code may panic at any call
+            st2 = st.clone()
+            st2.trace.append(f'Iterator::next panics at call {k + 1}')
+            if unw is not None:
+                try:
+                    unw(st2)
+                except PathEnd as e:
+                    s.paths.append((st2, ('end', e.why)))
+            if k < s.iter_len:
+                st.mem[('ITER', 'yielded')] = k + 1
+                st.trace.append(f'next yields item {k}')
+                return cont(st, Enum('Option', 'Some', [Opaque(f'item{k}')]))
+            st.trace.append('next yields None')
+            return cont(st, Enum('Option', 'None', []))
         if meth == 'call_once':
             # callback given to with_arc / with_arc_mut / with_raw_offset_arc
             tup = args[1]
@@ -275,6 +337,9 @@ class UInterp(mirsym.Interp):
             st.freed.add(x)
             if meta_of(b) is not None:
                 st.free_meta[x] = meta_of(b)
+            if has_uninit(st.mem.get(('H', x))):
+                st.mem[('FLAG', 'uninit_drop')] = True
+                st.trace.append(f'DESTROYS UNWRITTEN SLOTS of {x}')
             st.trace.append(f'destroy payload of {x}; free {x}' + (' with slice length ' + str(meta_of(b)) if meta_of(b) is not None else ''))
             return cont(st)
         if ty.startswith('std::result::Result<') or ty.startswith('std::option::Option<'):
@@ -285,6 +350,13 @@ class UInterp(mirsym.Interp):
                 return cont(st)
             return s.drop_value(st, inner[idx], Ptr(ptr.root, ptr.path + (0,)), depth, cont, unw)
         if re.match(r'^[A-Z]$', ty) or ty.startswith('{closure'):
+            v = st.load(ptr)
+            if isinstance(v, Opaque) and v.what.startswith('item'):
+                key = ('DROPPED', v.what)
+                if st.mem.get(key):
+                    st.mem[('FLAG', 'double_drop')] = True
+                st.mem[key] = True
+                st.trace.append(f'{v.what} destroyed (outside the allocation)')
             return cont(st)      # user value: its own destructor is outside the model
         leafty = ty.split('<')[0].split('::')[-1]
         cands = [f for f in s.fns if f.name.split('::')[-1] == 'drop' and f.params and re.search(r'&mut (\w+::)*' + re.escape(leafty) + r'\b', f.params[0][1])]
@@ -421,6 +493,8 @@ class UInterp(mirsym.Interp):
                 # raw-pointer conversions are summarised (see call_extern)
                 if re.search(r'::(from_raw|into_raw|as_ptr)$', nm) and 'arc::' in nm and 'from_raw_inner' not in nm and 'into_raw_inner' not in nm and 'offset' not in nm:
                     return s.call_extern(st, 'arc::Arc::' + nm.split('::')[-1], args, after, fn, my_unw)
+                if nm.endswith('allocate_for_header_and_slice'):
+                    return s.call_extern(st, 'arc::Arc::allocate_for_header_and_slice', args, after, fn, my_unw)
                 if nm == 'thin_arc::thin_to_thick' or nm.endswith('thin_to_thick'):
                     return s.call_extern(st, 'thin_to_thick', args, after, fn, my_unw)
                 return s.call_fn(st, tgt[0], args, depth + 1, after, my_unw)
@@ -452,6 +526,18 @@ class UInterp(mirsym.Interp):
         if k == 'downcast':
             return s.eval_place(st, fr, pl[1])
 
+    def eval_operand(s, st, fr, op):
+        op = op.strip()
+        if op.startswith('const ') and 'promoted[' in op:
+            # reference to a compile-time constant we do not evaluate (e.g. size_of::<T>()): an unknown value
+            st.nheap += 1
+            root = ('P', st.nheap)
+            st.mem[root] = st.fresh('promoted')
+            return Ptr(root)
+        if op.startswith('const "'):
+            return Opaque('str')
+        return super().eval_operand(st, fr, op)
+
     def eval_rvalue(s, st, fr, f, rv):
         rv = rv.strip()
         m = re.match(r'^PtrMetadata\((.*)\)$', rv)
@@ -471,6 +557,14 @@ class UInterp(mirsym.Interp):
 
 
 # ---------------------------------------------------------------------------- census
+def has_uninit(v):
+    if isinstance(v, Opaque) and v.what == 'uninit':
+        return True
+    if isinstance(v, (Struct, Enum)):
+        return any(has_uninit(f) for f in v.fields)
+    return False
+
+
 def handles_in(v, out):
     """collect (allocation) for every owning handle value reachable in a caller-visible value"""
     if isinstance(v, Struct):
@@ -511,6 +605,10 @@ def census(st, res, caller_place, by_value, c0):
     for x, m in st.free_meta.items():
         if x in st.true_len:
             bad.append((f'allocation {x} was released with a slice length different from its real one (wrong layout; elements leaked or over-dropped)', m != st.true_len[x]))
+    if st.mem.get(('FLAG', 'uninit_drop')):
+        bad.append(('an allocation with unwritten slots was destroyed (element destructors would run on uninitialised memory)', BoolVal(True)))
+    if st.mem.get(('FLAG', 'double_drop')):
+        bad.append(('an item yielded by the iterator was destroyed twice', BoolVal(True)))
     if st.mem.get(('FLAG', 'uaf')):
         bad.append(('the count of a freed allocation was accessed', BoolVal(True)))
     return bad
@@ -628,6 +726,79 @@ def check_abort_nostd(mir_text):
     return exits
 
 
+def items_in(v, out):
+    if isinstance(v, Opaque) and v.what.startswith('item'):
+        out.append(v.what)
+    elif isinstance(v, (Struct, Enum)):
+        for f in v.fields:
+            items_in(f, out)
+
+
+def run_from_iter(fns, consts, n_items):
+    """Arc::from_header_and_iter with an honest iterator of n_items whose `next` (and `len`) may panic at any
+    call: the half-built block may be leaked, but nothing unwritten may ever be destroyed, no item may be
+    destroyed twice, and a returned handle must be fully written."""
+    cands = [f for f in fns if f.name.split('::')[-1] == 'from_header_and_iter' and f.name.startswith('header::')
+             and len(f.params) == 2 and f.params[0][1] == 'H']
+    if len(cands) != 1:
+        raise Unsupported(f'Arc::from_header_and_iter found {len(cands)} times in the MIR dump')
+    fn = cands[0]
+    I = UInterp(fns, consts)
+    I.iter_len = n_items
+    st = UState()
+    done = []
+    def cont(st2, rv):
+        done.append((st2, ('ret', rv)))
+    def unw(st2):
+        done.append((st2, ('unwind', None)))
+    try:
+        I.call_fn(st, fn, [Opaque('header-value'), Opaque('iter')], 0, cont, unw)
+    except PathEnd as e:
+        done.append((st, ('end', e.why)))
+    for st2, r in I.paths:
+        done.append((st2, r))
+    results = []
+    for st2, res in done:
+        if res[0] == 'end':
+            if res[1] == 'unwind':
+                res = ('unwind', None)
+            else:
+                continue
+        sol = Solver()
+        sol.add(*st2.pc)
+        if sol.check() != sat:
+            continue
+        viol = None
+        for flag, msg in (('uninit_drop', 'an allocation with unwritten slots was destroyed'), ('double_drop', 'an item was destroyed twice'),
+                          ('uaf', 'the count of a freed allocation was accessed')):
+            if st2.mem.get(('FLAG', flag)):
+                viol = (msg, None)
+        built = [x for x in st2.cnt if x.startswith('built')]
+        stored = []
+        for x in built:
+            if x not in st2.freed:
+                items_in(st2.mem[('H', x)], stored)
+        dropped = [k[1] for k in st2.mem if isinstance(k, tuple) and k[0] == 'DROPPED']
+        if viol is None and set(stored) & set(dropped):
+            viol = ('an item written into the allocation was also destroyed outside it', None)
+        if viol is None and res[0] == 'ret':
+            out = []
+            handles_in(res[1], out)
+            if len(out) != 1 or out[0] not in built:
+                viol = ('the returned handle does not refer to the block that was built', None)
+            else:
+                x = out[0]
+                if x in st2.freed or has_uninit(st2.mem[('H', x)]):
+                    viol = ('a handle was returned although header or slots are unwritten (or the block was freed)', None)
+                elif len(stored) != n_items:
+                    viol = (f'{len(stored)} items stored, {n_items} expected', None)
+                elif simplify(st2.cnt[x]).as_long() != 1:
+                    viol = ('fresh handle is not a sole owner', None)
+        results.append({'api': 'Arc::from_header_and_iter', 'fn': fn.name, 'exit': res[0], 'steps': st2.trace, 'violation': viol,
+                        'pc': str(simplify(And(*st2.pc))) if st2.pc else 'true', 'n_items': n_items})
+    return results
+
+
 def run_all(mir_text):
     fns, consts = mirsym.parse_mir(mir_text)
     out = []
@@ -637,6 +808,11 @@ def run_all(mir_text):
             out += run_api(fns, consts, api)
         except Unsupported as e:
             errors.append((api[0], str(e)))
+    for n in (0, 1, 2):
+        try:
+            out += run_from_iter(fns, consts, n)
+        except Unsupported as e:
+            errors.append(('Arc::from_header_and_iter', str(e)))
     return out, errors
 
 
